@@ -4,6 +4,7 @@ C08 — Market price, quotes and step statistics are what book and fills imply.
 All statements are syntactic in the uninterpreted arithmetic `ops : PriceOps P` (`mid`,
 `addNotional`, `zero`), so they hold for IEEE doubles exactly as Python computes them.
 -/
+import PamsLemmas.SourceTie
 import PamsLemmas.SeriesLemmas
 import Mathlib.Data.Nat.Basic
 
@@ -212,5 +213,10 @@ def demo : Market Nat :=
 theorem nonvacuous : demo.cur.mid = some 102 ∧ demo.cur.last = some 104 ∧ demo.cur.market = some 104 ∧
     demo.cur.execVol = 1 ∧ demo.cur.turnover = 104 ∧ demo.cur.nBuy = 2 ∧ demo.cur.nSell = 1 := by
   decide +kernel
+
+/-- (T) `_update_market_price` in the current sources has the branch structure the model `refresh`
+transcribes -/
+theorem source_update_market_price :
+    Pams.Source.opsOf "Market._update_market_price" = ["is", "is", "is not", "is not", "is not", "is not"] := by decide
 
 end Pams.C08
